@@ -327,3 +327,5 @@ mut("siblings-back-tests-neighbour", "C17", "yrs/src/types/xml.rs", "        whi
     "        while let Some(item) = self.current {\n            self.current = item.left;\n            if let Some(left) = self.current.as_deref() {\n                if !item.is_deleted() {", "C17.b")
 mut("attr-union-by-value-only", "C16", "yrs/src/id_map.rs", "            if !self.0.contains(attr) {\n                self.0.push(attr.clone());", "            if !self.0.iter().any(|a| a.value() == attr.value()) {\n                self.0.push(attr.clone());", "C16.i")
 mut("attr-union-benign-any-eq", "C16", "yrs/src/id_map.rs", "            if !self.0.contains(attr) {\n                self.0.push(attr.clone());", "            if !self.0.iter().any(|a| a == attr) {\n                self.0.push(attr.clone());", "", kind="benign")
+mut("same-item-offset-tests-anchor", "C14", "yrs/src/sticky_index.rs", "                                    if !item.is_deleted() && item.is_countable() {\n                                        index += item.content_len(encoding);",
+    "                                    if !right.ptr.is_deleted() && item.is_countable() {\n                                        index += item.content_len(encoding);", "liveness", also=["C17"])
